@@ -1,4 +1,5 @@
 import sys
+# iterScanner.Scan: column slot kept from the previous row when the cell is null
 p=sys.argv[1]+'/session.go'; s=open(p).read()
 old="""		is.cols[i] = col
 """
